@@ -10,8 +10,6 @@ import (
 
 	"github.com/tendermint/tendermint/consensus"
 	"github.com/tendermint/tendermint/types"
-
-	"verif/verdict"
 )
 
 type histCfg struct {
